@@ -6,6 +6,7 @@ use std::panic::catch_unwind;
 
 mod statuslist;
 mod jws;
+mod jwk;
 mod revocation;
 mod sdjwt;
 mod ts;
@@ -85,6 +86,7 @@ fn main() {
     "timestamp" => ts::timestamp(&cex),
     "sd_jwt" => sdjwt::sd_jwt(&cex),
     "revocation" => revocation::bitmap(&cex),
+    "jwk" => jwk::jwk(&cex),
     "kani" => kani_replay(&cex),
     "selftest" => selftest(),
     _ => Err(format!("unknown scenario {scenario}")),
